@@ -226,25 +226,52 @@ def seq_prefix(pre, full):
     return conj([char_eq(a, b) for a, b in zip(pre, full)])
 
 
+# formulas are rebuilt on every path (the program is re-executed); the words live as long as the
+# engine, so relation formulas are memoised per pair of string shapes
+_memo = {}
+
+
+def _key(x):
+    return x if isinstance(x, str) else ('S',) + tuple(p if isinstance(p, str) else (id(p.w), p.start, p.stop) for p in x.parts)
+
+
+def _memoised(op, a, b, build):
+    k = (op, _key(a), _key(b))
+    r = _memo.get(k)
+    if r is None:
+        r = build()
+        if r is not True and r is not False:
+            r = z3.simplify(r)
+            if z3.is_true(r):
+                r = True
+            elif z3.is_false(r):
+                r = False
+        if len(_memo) > 200000:
+            _memo.clear()
+        _memo[k] = (r, a, b)     # keep the operands alive: ids of words are part of the key
+        return r
+    return r[0]
+
+
 def eq(a, b):
     if isinstance(a, str) and isinstance(b, str):
         return a == b
     ws = words_of(a, b)
-    return over_lengths(ws, lambda asg: seq_eq(expand(a, asg), expand(b, asg)))
+    return _memoised('eq', a, b, lambda: over_lengths(ws, lambda asg: seq_eq(expand(a, asg), expand(b, asg))))
 
 
 def startswith(full, pre):
     if isinstance(full, str) and isinstance(pre, str):
         return full.startswith(pre)
     ws = words_of(full, pre)
-    return over_lengths(ws, lambda asg: seq_prefix(expand(pre, asg), expand(full, asg)))
+    return _memoised('sw', full, pre, lambda: over_lengths(ws, lambda asg: seq_prefix(expand(pre, asg), expand(full, asg))))
 
 
 def is_empty(a):
     if isinstance(a, str):
         return a == ''
     ws = words_of(a)
-    return over_lengths(ws, lambda asg: len(expand(a, asg)) == 0)
+    return _memoised('empty', a, '', lambda: over_lengths(ws, lambda asg: len(expand(a, asg)) == 0))
 
 
 def length_cmp(a, b, op):
@@ -357,7 +384,8 @@ def glob_match_seq(toks, chars):
 
 def glob_match(pattern_toks, subject):
     ws = words_of(subject)
-    return over_lengths(ws, lambda asg: glob_match_seq(pattern_toks, expand(subject, asg)))
+    return _memoised(('glob', tuple(pattern_toks)), subject, '',
+                     lambda: over_lengths(ws, lambda asg: glob_match_seq(pattern_toks, expand(subject, asg))))
 
 
 # ---------------------------------------------------------------------------------------------
@@ -413,7 +441,9 @@ class Engine:
             try:
                 p = subprocess.run(cmd, input=text, stdout=subprocess.PIPE, stderr=subprocess.STDOUT, text=True, timeout=120)
             except subprocess.TimeoutExpired:
-                raise Inconclusive('second solver %s timed out on a path query' % cmd[0])
+                # not an answer, hence not a disagreement: counted, reported in the evidence
+                self.note('cross-' + cmd[0].split('/')[-1], 'timeout', 120.0)
+                continue
             out = p.stdout.strip().split('\n')[-1] if p.stdout.strip() else ''
             if '(error' in p.stdout or out not in ('sat', 'unsat'):
                 raise Inconclusive('second solver %s: %r' % (cmd[0], p.stdout[:200]))
